@@ -1,13 +1,16 @@
 """The semantic properties decided by CircuitSys behaviours replayed into cirkit
-(C01, C03, C04, C05, C06, C07): configurations and the check driver."""
+(C01-C07, C10, C11, C13, C19): configurations and the check driver."""
 import json
+import os
 
 from . import configs, runner, semantic, tlcrun
 
 BASE = dict(
-    Dom=(2, 2), KSet={1, 2}, MaxL=4, MaxIn=2, InKindSeq=("emb",),
-    InnerKinds={"sum", "had", "kron"}, MaxAr=2, MaxOuts=2, MaxOps=0, OpSet=set(), Scheme=1,
-    OnlySD=False, PolyDeg=1, DiffK={1}, J=1, EmitOps={0}, EmitMod=1, EmitRes=0,
+    Dom=(2, 2), KSet={1, 2}, MaxK=8, MaxL=4, MaxIn=2, InKindSeq=("emb",),
+    InnerKinds={"sum", "had", "kron"}, MaxAr=2, FreeOrder=False, MaxOuts=2, MaxBases=1, MaxOps=0, OpSet=set(),
+    Scheme=1, OnlySD=False, PolyDeg=1, DiffK={1}, MaxDeg=2, Invalid=False, MaxHist=0,
+    RunActs={"update", "eval"}, NVer=2, GradMod=0, QueryOn=False, J=1,
+    EmitOps={0}, EmitMod=1, EmitRes=0, EmitSmall=3,
 )
 
 
@@ -17,68 +20,287 @@ def cfg(**kw):
     return d
 
 
-# name -> (constants, targets)
+ALLINNER = {"sum", "had", "kron", "mix"}
+
+
+# name -> (constants, replay options)
 def configurations(pid, tier, seed):
     q = tier == "quick"
+    r = seed
+
+    def em(quick_mod, thorough_mod=1):
+        return dict(EmitMod=quick_mod if q else thorough_mod, EmitRes=r)
+
     if pid == "C01":
-        cs = {
-            "a_emb_free": cfg(InnerKinds={"sum", "had", "kron", "mix"},
-                              EmitMod=2 if q else 1, EmitRes=seed),
-            "b_discrete": cfg(Dom=(2, 3), InKindSeq=("emb", "catp", "catl"), KSet={1, 2},
-                              EmitMod=6 if q else 1, EmitRes=seed),
-            "c_poly_const": cfg(Dom=(3, 2), InKindSeq=("poly", "const", "clog"), Scheme=2,
-                                PolyDeg=2, EmitMod=4 if q else 1, EmitRes=seed),
-            "d_deep_sd": cfg(Dom=(2, 2, 2), KSet={2}, MaxL=5 if q else 6, MaxIn=3, MaxAr=3,
-                             OnlySD=True, InnerKinds={"sum", "had", "kron", "mix"},
-                             MaxOuts=1, EmitMod=1 if q else 7, EmitRes=seed),
+        return {
+            "a_emb_free": (cfg(InnerKinds=ALLINNER, FreeOrder=True, **em(16)), {}),
+            "b_discrete": (cfg(Dom=(2, 3), InKindSeq=("emb", "catp", "catl"), **em(60)), {}),
+            "c_poly_const": (cfg(Dom=(3, 2), InKindSeq=("poly", "const", "clog"), Scheme=2,
+                                 PolyDeg=2, **em(30)), {}),
+            "d_deep_sd": (cfg(Dom=(2, 2, 2), KSet={2}, MaxL=5 if q else 6, MaxIn=3, MaxAr=3,
+                              OnlySD=True, InnerKinds=ALLINNER, MaxOuts=1, Scheme=6,
+                              **em(6, 7)), {}),
+            "e_complex": (cfg(Dom=(2, 2), KSet={1, 2}, InKindSeq=("emb", "poly"), Scheme=3,
+                              InnerKinds=ALLINNER, **em(60, 2)), {}),
         }
-        return {k: (v, {"base"}) for k, v in cs.items()}
+    sd = dict(OnlySD=True, MaxOuts=1)
+    if pid == "C03":
+        return {
+            "a_int1": (cfg(Dom=(2, 3), InKindSeq=("emb", "catp", "catl"), InnerKinds=ALLINNER,
+                           MaxL=5, MaxOps=1, OpSet={"integrate"}, EmitOps={1}, **sd, **em(40)),
+                       {"targets": {"integrate"}}),
+            "b_chain": (cfg(Dom=(2, 2, 2), KSet={2}, MaxIn=3, MaxL=5, MaxAr=3,
+                            InKindSeq=("emb", "catl"), MaxOps=2, OpSet={"integrate"},
+                            EmitOps={2}, **sd, **em(20)), {"targets": {"integrate"}}),
+            "d_int_of_pairs": (cfg(Dom=(2, 2), KSet={1, 2}, MaxL=4, MaxIn=2, MaxBases=2,
+                                   InKindSeq=("emb", "catp"), InnerKinds={"sum"}, MaxOps=2,
+                                   OpSet={"integrate", "multiply"}, EmitOps={2}, EmitSmall=0,
+                                   **sd, **em(60, 4)), {"targets": {"integrate"}}),
+            "c_of_products": (cfg(Dom=(2, 2), KSet={2}, MaxL=4, InKindSeq=("emb", "catp"),
+                                  MaxOps=2, OpSet={"integrate", "multiply", "evidence"},
+                                  EmitOps={2}, MaxOuts=2, OnlySD=True, EmitSmall=2, **em(100, 4)),
+                              {"targets": {"integrate"}}),
+        }
+    if pid == "C04":
+        return {
+            "a_square": (cfg(Dom=(2, 2), KSet={1, 2}, MaxL=4, InKindSeq=("emb", "catp", "catl"),
+                             InnerKinds=ALLINNER, MaxOps=1, OpSet={"multiply"}, EmitOps={1},
+                             **sd, **em(4)), {"targets": {"multiply"}}),
+            "b_pairs": (cfg(Dom=(2, 2), KSet={1, 2}, MaxL=6, MaxIn=4, MaxBases=2,
+                            InKindSeq=("emb",), InnerKinds={"sum", "had", "kron"}, MaxOps=1,
+                            OpSet={"multiply"}, EmitOps={1}, **sd, **em(160, 4)),
+                        {"targets": {"multiply"}}),
+            "c_chain": (cfg(Dom=(2, 2), KSet={2}, MaxL=4, InKindSeq=("emb", "poly"), Scheme=2, MaxDeg=3,
+                            MaxOps=2, OpSet={"multiply", "evidence"}, EmitOps={2}, EmitSmall=2,
+                            **sd, **em(6)), {"targets": {"multiply"}}),
+            "d_arity3": (cfg(Dom=(2, 2, 2), KSet={2}, MaxL=5, MaxIn=3, MaxAr=3,
+                             InKindSeq=("emb",), InnerKinds=ALLINNER, MaxOps=1,
+                             OpSet={"multiply"}, EmitOps={1}, Scheme=6, **sd, **em(6)),
+                         {"targets": {"multiply"}}),
+        }
+    if pid == "C05":
+        return {
+            "a_k1": (cfg(Dom=(3, 2), KSet={1, 2}, MaxL=5, InKindSeq=("poly",), Scheme=2,
+                         PolyDeg=2, InnerKinds={"sum", "had", "kron"}, MaxOps=1,
+                         OpSet={"differentiate"}, DiffK={1, 2}, J=3, EmitOps={1}, **sd, **em(8)),
+                     {"targets": {"differentiate"}}),
+            "b_3vars": (cfg(Dom=(2, 2, 2), KSet={1}, MaxL=5, MaxIn=3, MaxAr=3,
+                            InKindSeq=("poly",), Scheme=2, PolyDeg=1,
+                            InnerKinds={"sum", "had"}, MaxOps=1, OpSet={"differentiate"},
+                            FreeOrder=True, DiffK={1}, J=2, EmitOps={1}, EmitSmall=4, **sd,
+                            **em(11, 2)),
+                        {"targets": {"differentiate"}}),
+        }
+    if pid == "C06":
+        return {
+            "a_evi": (cfg(Dom=(2, 3), KSet={1, 2}, MaxL=4, InKindSeq=("emb", "catp", "catl"),
+                          InnerKinds=ALLINNER, MaxOps=1, OpSet={"evidence"}, EmitOps={1},
+                          MaxOuts=2, OnlySD=True, EmitSmall=2, **em(100, 4)), {"targets": {"evidence"}}),
+            "b_evi_poly": (cfg(Dom=(3, 2), KSet={1, 2}, MaxL=4, InKindSeq=("poly",), Scheme=2,
+                               PolyDeg=2, MaxOps=1, OpSet={"evidence"}, EmitOps={1},
+                               MaxOuts=2, OnlySD=True, **em(12)), {"targets": {"evidence"}}),
+            "c_evi_then": (cfg(Dom=(2, 2), KSet={2}, MaxL=4, InKindSeq=("emb", "catp"),
+                               MaxOps=2, OpSet={"evidence", "integrate", "multiply"},
+                               EmitOps={2}, EmitSmall=2, **sd, **em(12)),
+                           {"targets": {"evidence", "integrate", "multiply"}}),
+            "d_concat": (cfg(Dom=(2, 2), KSet={1, 2}, MaxL=4, MaxBases=2, MaxIn=2,
+                             InKindSeq=("emb", "catp"), MaxOps=2,
+                             OpSet={"concat", "evidence"}, EmitOps={1, 2}, MaxOuts=2,
+                             OnlySD=False, EmitSmall=0, **em(601, 41)), {"targets": {"concat"}}),
+        }
+    if pid == "C07":
+        return {
+            "a_conj_complex": (cfg(Dom=(2, 2), KSet={1, 2}, MaxL=4, InKindSeq=("emb", "poly"),
+                                   Scheme=3, InnerKinds=ALLINNER, MaxOps=2, OpSet={"conjugate"},
+                                   EmitOps={2}, MaxOuts=2, EmitSmall=2, **em(64, 4)),
+                               {"targets": {"conjugate"}}),
+            "b_conj_real_ops": (cfg(Dom=(2, 2), KSet={2}, MaxL=4,
+                                    InKindSeq=("emb", "catp", "catl"), MaxOps=2,
+                                    OpSet={"conjugate", "multiply", "integrate"}, EmitOps={2},
+                                    EmitSmall=2, **sd, **em(12)), {"targets": {"conjugate", "integrate"}}),
+            "c_conj_complex_ops": (cfg(Dom=(2, 2), KSet={2}, MaxL=4, InKindSeq=("emb",),
+                                       Scheme=3, MaxOps=3,
+                                       OpSet={"conjugate", "multiply", "integrate"},
+                                       EmitOps={3}, EmitSmall=2, **sd, **em(70, 4)),
+                                   {"targets": {"conjugate", "integrate", "multiply"}}),
+        }
+    if pid == "C02":
+        o = {"flagset": "fo4", "addressable": True}
+        return {
+            "a_free_upd": (cfg(InnerKinds=ALLINNER, FreeOrder=True, MaxHist=3, EmitSmall=0,
+                               **em(150, 8)), o),
+            "b_mixed_inputs": (cfg(Dom=(2, 3), InKindSeq=("emb", "catp", "catl"), MaxIn=3,
+                                   MaxL=5, MaxOuts=2, EmitSmall=0, **em(2500, 100)), o),
+            "c_deep": (cfg(Dom=(2, 2, 2), KSet={2}, MaxL=6, MaxIn=3, MaxAr=3, OnlySD=True,
+                           InnerKinds=ALLINNER, MaxOuts=2, Scheme=6, EmitSmall=0,
+                           **em(4000, 200)), o),
+            "d_pipeline_upd": (cfg(Dom=(2, 2), KSet={1, 2}, MaxL=4, InKindSeq=("emb", "catp"),
+                                   MaxOps=2, OpSet={"multiply", "integrate", "evidence"},
+                                   EmitOps={2}, MaxHist=3, EmitSmall=0, **sd, **em(1500, 60)),
+                               o),
+            "e_poly_diff": (cfg(Dom=(2, 2), KSet={1, 2}, MaxL=4, InKindSeq=("poly",), Scheme=2,
+                                PolyDeg=2, MaxOps=2, OpSet={"differentiate", "multiply"},
+                                DiffK={1, 2}, J=3, EmitOps={1, 2}, EmitSmall=0, **sd,
+                                **em(60, 4)), o),
+        }
+    if pid == "C10":
+        acts = {"update", "reset", "load", "save", "eval"}
+        return {
+            "a_one_op": (cfg(Dom=(2, 2), KSet={1, 2}, MaxL=4, InKindSeq=("emb", "catp", "catl"),
+                             InnerKinds=ALLINNER, MaxOps=1,
+                             OpSet={"integrate", "multiply", "evidence", "conjugate"},
+                             EmitOps={1}, MaxHist=4, RunActs=acts, NVer=3, EmitSmall=0,
+                             **sd, **em(6000, 300)), {"nflags": 3}),
+            "b_chains": (cfg(Dom=(2, 2), KSet={2}, MaxL=3, InKindSeq=("emb", "catp"),
+                             MaxOps=3, OpSet={"integrate", "multiply", "evidence", "concat"},
+                             EmitOps={3}, MaxHist=4, RunActs=acts, NVer=2, EmitSmall=0,
+                             **sd, **em(20000, 1000)), {"nflags": 3}),
+            "c_poly": (cfg(Dom=(2, 2), KSet={1, 2}, MaxL=4, InKindSeq=("poly",), Scheme=2,
+                           PolyDeg=2, MaxOps=2, OpSet={"differentiate", "multiply", "evidence"},
+                           DiffK={1}, J=2, EmitOps={2}, MaxHist=4,
+                           RunActs={"update", "reset", "eval"}, NVer=2, EmitSmall=0, **sd,
+                           **em(3000, 150)), {"nflags": 3}),
+            "d_long_hist": (cfg(Dom=(2, 2), KSet={2}, MaxL=3, InKindSeq=("emb",), MaxOps=1,
+                                OpSet={"integrate", "multiply"}, EmitOps={1}, MaxHist=6,
+                                RunActs=acts, NVer=2, EmitSmall=0, **sd, **em(600, 30)),
+                            {"nflags": 3}),
+        }
+    if pid == "C19":
+        acts = {"update", "reset", "save", "reload", "eval"}
+        return {
+            "a_base": (cfg(Dom=(2, 2), KSet={1, 2}, MaxL=4, InKindSeq=("emb", "catp", "catl"),
+                           InnerKinds=ALLINNER, MaxOuts=2, MaxHist=4, RunActs=acts, NVer=3,
+                           EmitSmall=0, **em(1500, 80)), {"nflags": 3}),
+            "b_pipeline": (cfg(Dom=(2, 2), KSet={1, 2}, MaxL=4, InKindSeq=("emb", "catp"),
+                               MaxOps=2, OpSet={"integrate", "multiply", "evidence"},
+                               EmitOps={1, 2}, MaxHist=4, RunActs=acts, NVer=2, EmitSmall=0,
+                               **sd, **em(9000, 400)), {"nflags": 3}),
+            "c_long": (cfg(Dom=(2, 2), KSet={2}, MaxL=3, InKindSeq=("emb", "poly"), Scheme=2,
+                           MaxOps=1, OpSet={"multiply"}, EmitOps={0, 1}, MaxHist=6,
+                           RunActs=acts, NVer=2, EmitSmall=0, **sd, **em(800, 40)),
+                       {"nflags": 3}),
+        }
+    if pid == "C13":
+        o = {"grads": True, "rows": False, "flagset": "fo4"}
+        return {
+            "a_free": (cfg(InnerKinds=ALLINNER, J=2, GradMod=3, EmitSmall=3, **em(40, 4)), o),
+            "b_inputs": (cfg(Dom=(2, 3), InKindSeq=("emb", "catp", "catl", "const", "clog"),
+                             MaxIn=3, J=2, GradMod=3, EmitSmall=2, **em(400, 20)), o),
+            "c_poly": (cfg(Dom=(3, 2), InKindSeq=("poly",), Scheme=2, PolyDeg=2, J=2, GradMod=3,
+                           EmitSmall=3, **em(30, 3)), o),
+            "d_zeros": (cfg(InnerKinds={"sum", "had", "mix"}, Scheme=2, J=2, GradMod=2,
+                            EmitSmall=3, **em(30, 3)), o),
+            "e_one_op": (cfg(Dom=(2, 2), KSet={1, 2}, MaxL=4, InKindSeq=("emb", "catp"),
+                             MaxOps=1, OpSet={"integrate", "multiply", "evidence"}, EmitOps={1},
+                             J=2, GradMod=3, EmitSmall=2, **sd, **em(60, 6)), o),
+        }
+    if pid == "C11":
+        o = {"query": True, "rows": False, "flagset": "fo4"}
+        return {
+            "a_cat2": (cfg(Dom=(2, 3), KSet={1, 2}, MaxL=5, InKindSeq=("catp", "catl"),
+                           InnerKinds=ALLINNER, QueryOn=True, EmitSmall=3, MaxOuts=2,
+                           OnlySD=True, **em(60, 4)), o),
+            "b_cat3": (cfg(Dom=(2, 2, 2), KSet={2}, MaxL=5, MaxIn=3, MaxAr=3,
+                           InKindSeq=("catp", "catl"), InnerKinds=ALLINNER, QueryOn=True,
+                           Scheme=6, EmitSmall=3, **sd, **em(40, 4)), o),
+            "c_norm": (cfg(Dom=(2, 3), KSet={2}, MaxL=5, InKindSeq=("catp", "catl"),
+                           InnerKinds={"sum", "had", "mix"}, QueryOn=True, Scheme=4,
+                           EmitSmall=3, **sd, **em(12, 2)), o),
+        }
     raise KeyError(pid)
 
 
 def zero_input_unit(beh):
     """Does some input-layer unit evaluate to exactly zero at some point of the domain?"""
     from . import nums  # pylint: disable=import-outside-toplevel
-    for l, m in zip(beh["layers"], beh["store"]):
-        if l["kind"] in ("emb", "catp", "catl", "const", "clog", "binom"):
-            if any(int(e[0][0]) == 0 and int(e[1][0]) == 0 for row in m for e in row):
-                return True
-        elif l["kind"] == "poly":
-            for row in m:
-                for x in range(beh["dom"][l["var"] - 1]):
-                    re = sum(nums.dy(c[0]) * x ** d for d, c in enumerate(row))
-                    im = sum(nums.dy(c[1]) * x ** d for d, c in enumerate(row))
-                    if re == 0 and im == 0:
-                        return True
+    for st in beh.get("stores", []):
+        for l, m in zip(beh["layers"], st):
+            if l["kind"] in ("emb", "catp", "catl", "const", "clog", "binom"):
+                if any(int(e[0][0]) == 0 and int(e[1][0]) == 0 for row in m for e in row):
+                    return True
+            elif l["kind"] == "poly":
+                for row in m:
+                    for x in range(beh["dom"][l["var"] - 1]):
+                        re = sum(nums.dy(c[0]) * x ** d for d, c in enumerate(row))
+                        im = sum(nums.dy(c[1]) * x ** d for d, c in enumerate(row))
+                        if re == 0 and im == 0:
+                            return True
+    return False
+
+
+def _scopes(beh, observed=()):
+    L = beh["layers"]
+    sc = []
+    for l in L:
+        if l["ins"]:
+            sc.append(frozenset().union(*[sc[j - 1] for j in l["ins"]]))
+        else:
+            sc.append(frozenset([l["var"]]) - frozenset(observed) - {0})
+    return sc
+
+
+def prod_order_sensitive(beh):
+    """multiply pairs the inputs of two product layers positionally, after a sort by scope that
+    only moves empty-scope inputs to the front: is there a Kronecker layer (more than one unit)
+    with an empty-scope (constant / observed) input listed after a non-empty one, or do two base
+    circuits list the inputs of product layers over the same scope in different orders?"""
+    L = beh["layers"]
+    observed = {v for t in beh["ops"] if t["op"] == "evidence" for v in t["vars"]}
+    sc = _scopes(beh, observed)
+    for l in L:
+        if l["kind"] == "kron" and L[l["ins"][0] - 1]["K"] > 1:
+            ins = [sc[j - 1] for j in l["ins"]]
+            seen_nonempty = False
+            for s_ in ins:
+                if s_:
+                    seen_nonempty = True
+                elif seen_nonempty:
+                    return True
+    if len(beh["bases"]) == 2:
+        prods = [(i, [sc[j - 1] for j in l["ins"]]) for i, l in enumerate(L)
+                 if l["kind"] in ("had", "kron")]
+        for i, a in prods:
+            for j, b in prods:
+                if i < j and sc[i] == sc[j] and set(a) == set(b) and a != b:
+                    return True
     return False
 
 
 def signature(beh, f):
     used = {j for l in beh["layers"] for j in l["ins"]}
     flags = f.get("flags") or [None, None, None]
+    L = beh["layers"]
     return {
         "kind": f["kind"],
         "op": f.get("op"),
         "semiring": flags[0], "fold": flags[1], "optimize": flags[2],
         "batch": f.get("batch"), "B": f.get("B"),
-        "layer_kinds": sorted({l["kind"] for l in beh["layers"]}),
+        "layer_kinds": sorted({l["kind"] for l in L}),
         "ops": [t["op"] for t in beh["ops"]],
-        "interior_output": any(o in used for o in beh["outs"]),
-        "nouts": len(beh["outs"]),
+        "interior_output": any(o in used for outs in beh["bases"] for o in outs),
+        "nouts": len(beh["bases"][0]),
         "nan": bool(f.get("nan")),
         "zero_input_unit": zero_input_unit(beh),
+        "max_sum_arity": max([len(l["ins"]) for l in L if l["kind"] in ("sum", "mix")] + [0]),
+        "max_units": max(l["K"] for l in L),
+        "action": f.get("action"),
+        "prod_order_sensitive": prod_order_sensitive(beh),
+        "fmt": f.get("fmt"),
     }
 
 
-def run(pid, tier, seed, rule, assumptions, workers=16):
+def run(pid, tier, seed, rule, assumptions, workers=16, confs=None, extra_sig=None):
     rep = runner.Report(pid, tier, seed)
     rep.assumptions = assumptions
-    confs = configurations(pid, tier, seed)
+    if confs is None:
+        confs = configurations(pid, tier, seed)
     tags = set()
     refused = 0
-    for name, (consts, targets) in confs.items():
+    inits = {}
+    for name, (consts, opts) in confs.items():
+        inv = opts.get("emit", "EmitInv")
         mod, cf = configs.write(f"{pid}_{tier}_{name}", "CircuitSys", consts,
-                                invariants=["TypeOK", "EmitInv"])
+                                invariants=["TypeOK", inv])
         try:
             pay, stats = tlcrun.run_tlc(mod, cf, f"{pid}_{name}", workers=workers,
                                         timeout=1800 if tier == "quick" else 7200)
@@ -90,48 +312,63 @@ def run(pid, tier, seed, rule, assumptions, workers=16):
         if not behs:
             rep.machinery_errors.append(f"configuration {name} emitted no behaviour (vacuous)")
             continue
-        results = runner.pmap(semantic.worker, [(b, tier, seed, targets) for b in behs])
+        rep.tlc_runs[-1]["behaviours_emitted"] = len(behs)
+        if os.environ.get("VERIF_KEEP"):
+            with open(os.path.join(runner.VERIF, "work", f"behs_{pid}_{name}.json"), "w") as fo:
+                json.dump(behs, fo)
+        fn = opts.get("worker", semantic.worker)
+        results = runner.pmap(fn, [(b, tier, seed, opts) for b in behs])
         if len(rep.samples) < 4:
             b0 = behs[len(behs) // 2]
-            rep.samples.append({"config": name, "layers": b0["layers"], "outs": b0["outs"],
-                                "ops": b0["ops"], "expect_first_rows":
-                                    [e["table"][:2] for e in b0["expect"]]})
+            rep.samples.append({"config": name, "layers": b0["layers"], "bases": b0["bases"],
+                                "ops": b0["ops"],
+                                "hist": [{k: v for k, v in s.items() if k != "expect"}
+                                         for s in (b0.get("hist") or [])],
+                                "expect_first_rows":
+                                    [e["table"][:2] for e in b0.get("expect", []) if "table" in e]})
         for b, r in zip(behs, results):
             rep.replayed += 1
             rep.evaluations += r["evals"]
             refused += r.get("refused", 0)
             tags.update(r.get("tags", []))
+            inits[r.get("init")] = inits.get(r.get("init"), 0) + 1
             unknown = []
             for f in r["failures"]:
                 if f["kind"] == "harness_error":
                     rep.machinery_errors.append(f["detail"] + f.get("trace", ""))
                     continue
                 sig = signature(b, f)
+                if extra_sig:
+                    sig.update(extra_sig(b, f))
                 if rep.known_only(sig):
                     continue
                 unknown.append((sig, f))
             if unknown:
                 sig, f = unknown[0]
-                rep.failure(sig, {"hash": r["hash"], "engine": "semantic",
-                                  "behaviour": b, "targets": sorted(targets) if targets else None,
+                rep.failure(sig, {"hash": r["hash"], "engine": "semantic", "config": name,
+                                  "behaviour": b, "opts": {k: (sorted(v) if isinstance(v, set) else v)
+                                                           for k, v in opts.items()
+                                                           if k not in ("worker",)},
                                   "failures": [u[1] for u in unknown], "rho": r.get("rho")},
                             f"{f['kind']} op={f.get('op')} flags={f.get('flags')} "
                             f"batch={f.get('batch')} layers={json.dumps(b['layers'])[:300]} "
-                            f"outs={b['outs']} ops={json.dumps(b['ops'])[:200]} "
+                            f"bases={b['bases']} ops={json.dumps(b['ops'])[:200]} "
                             f"{f.get('detail', '')[:300]}")
     rep.extra["compiled_layer_tags"] = sorted(tags)
     rep.extra["operator_refusals"] = refused
+    rep.extra["initialiser_modes"] = {str(k): v for k, v in inits.items()}
     return rep.finish(rule, exhaustive=(tier == "thorough"))
 
 
 def replay_file(path, pid):
     with open(path) as f:
         obj = json.load(f)
-    r = semantic.replay(obj["behaviour"], "thorough", 0,
-                        set(obj["targets"]) if obj.get("targets") else None)
+    opts = dict(obj.get("opts") or {})
+    if opts.get("targets"):
+        opts["targets"] = set(opts["targets"])
+    r = semantic.replay(obj["behaviour"], "thorough", 0, opts)
     print(json.dumps(r["failures"], indent=1)[:4000])
-    bad = [f for f in r["failures"]]
-    if bad:
+    if r["failures"]:
         print(f"VIOLATION property={pid} replay={path}")
         return 1
     print("replay: no failure reproduced")
